@@ -631,7 +631,7 @@ func genC06(tier string, seed uint64, n int, e *Emitter) {
 	if n == 0 {
 		n = 300
 		if tier == "thorough" {
-			n = 10000
+			n = 5000
 		}
 	}
 	// (0) corpus: every family walked twice in order (second round hits what the first stored), plain and normalising
